@@ -72,17 +72,13 @@ impl<T, E> Observer<T, E> for ObservableStreamObserver<T, E> {
   }
 
   fn error(self, err: E) {
-    self
-      .sender
-      .unbounded_send(Message::Item(Err(err)))
-      .expect("failed to send error to stream");
+    // the stream may have been dropped meanwhile (receiver gone): a terminal
+    // must not panic then
+    let _ = self.sender.unbounded_send(Message::Item(Err(err)));
   }
 
   fn complete(self) {
-    self
-      .sender
-      .unbounded_send(Message::Complete)
-      .expect("failed to send a complete message");
+    let _ = self.sender.unbounded_send(Message::Complete);
   }
 
   fn is_finished(&self) -> bool {
